@@ -79,6 +79,10 @@ def do_fail(run, op):
             g.try_get_segment(op[2])
         elif kind == "header":
             g.add_line(op[2])
+        elif kind == "header_add":
+            g.header.add(*op[2])
+        elif kind == "multiply":
+            g.multiply(op[2], op[3], distribute=op[4])
         else:
             raise ValueError(kind)
     except Exception as e:
@@ -199,7 +203,20 @@ def build_fail(st, r):
     fresh = [n for n in ["f1", "f2", "f3", "f4"] if n not in names and n not in m.undefined_mentions()]
     fa = fresh[0] if fresh else "zz1"
     fb = fresh[1] if len(fresh) > 1 else "zz2"
-    k = gen.choice(r, [0, 1, 1, 1, 2, 3, 4, 5, 6, 7, 8, 9, 10, 10, 11, 12, 13, 13, 14, 14])
+    k = gen.choice(r, [0, 1, 1, 1, 2, 3, 4, 5, 6, 7, 8, 9, 10, 10, 11, 12, 13, 13, 14, 14, 15, 16, 17])
+    if k == 15:
+        # a further value of a header tag that the tag's datatype cannot hold (zv is i, zx is Z and multi-valued)
+        args = gen.choice(r, [["zv", "abc"], ["zv", "1x", "i"], ["zx", "a\tb"], ["TS", "x"], ["zv", 2.5]])
+        return ["fail", "header_add", args, "header_add_wrong_kind"]
+    if k == 16 and m.segment_names():
+        a = gen.choice(r, m.segment_names())
+        if version == "gfa1" and "," in a:
+            return None
+        text = gen.choice(r, ["L\t%s\t+\t%s\t-\t*\tID:Z:%s" % (fa, a, fa), "P\t%s\t%s+,%s+\t*" % (fa, a, fa)]) if version == "gfa1" else \
+            gen.choice(r, ["E\t%s\t%s+\t%s+\t0\t1\t0\t1\t*" % (fa, a, fa), "G\t%s\t%s-\t%s+\t5\t*" % (fa, fa, a)])
+        return ["fail", "add", text, "self_mention"]
+    if k == 17 and m.segment_names():
+        return ["fail", "multiply", gen.choice(r, m.segment_names()), r.randint(2, 3), gen.choice(r, ["zzz", "l", "both"]), "multiply_unknown_policy"]
     real_named = [x for x in m.recs if M.name_of(x) is not None and not (version == "gfa1" and x.rt in "LC")]
     if k == 0 and real_named:
         nm = M.name_of(gen.choice(r, real_named))
@@ -362,7 +379,7 @@ def gen_case(r, version):
                 continue
             if f[-1] == "invalid_name_vlevel3" and vlevel < 1:
                 continue  # (the name of the kind is historical: an invalid name is refused from vlevel 1 on, D79)
-            if f[-1] == "header_datatype_clash" and vlevel < 2:
+            if f[-1] in ("header_datatype_clash", "header_add_wrong_kind") and vlevel < 2:
                 continue
             ops.append(f)
         else:
